@@ -1,3 +1,3 @@
 From Coq Require Import ExtrOcamlBasic ZArith.
-From RtoscV Require Import Ports.NameModel Ports.PathModel.
-Extraction "model.ml" Z.add Z.mul Z.opp collapse index_op apropos path_search path_search_msg get_port.
+From RtoscV Require Import Ports.NameModel Ports.PathModel Ports.WalkModel Ports.NamesModel.
+Extraction "model.ml" Z.add Z.mul Z.opp collapse index_op apropos path_search path_search_msg get_port names_ok render_port.
